@@ -210,6 +210,9 @@ class Source(tuple, metaclass=abc.ABCMeta):
     def __getnewargs__(self):
         return tuple(self)
 
+    def __getstate__(self):
+        return None  # the lazily cached properties (features, schema) are not part of the state
+
     def __hash__(self):
         return hash(self.__class__.__module__) ^ hash(self.__class__.__qualname__) ^ super().__hash__()
 
